@@ -278,8 +278,10 @@ theorem disable_bit (x t : Nat) (ht : t < 32) (i : Nat) (hi : i < 32) :
     (x &&& (4294967295 - u32 (1 <<< t))).testBit i = (x.testBit i && !decide (t = i)) := by
   rw [Nat.testBit_and, disable_mask_bit t ht i hi]
 
-theorem p3_split (t f : Nat) (ht : t < 256) (hf : f < 256) : p3Of t ⟨.nb_sched_set, 0, 0, f⟩ = t + 256 * f := by
-  have h : (f <<< 8) ||| t = f <<< 8 + t := (Nat.shiftLeft_add_eq_or_of_lt (i := 8) (by omega) f).symm
+theorem p3_split (t : Nat) (it : Item) (ht : t < 256) (hf : it.flags < 256) :
+    p3Of t it = t + 256 * it.flags := by
+  have h : (it.flags <<< 8) ||| t = it.flags <<< 8 + t :=
+    (Nat.shiftLeft_add_eq_or_of_lt (i := 8) (by omega) it.flags).symm
   simp only [p3Of, u16]
   rw [Nat.or_comm, h, Nat.shiftLeft_eq]
   omega
@@ -289,7 +291,6 @@ theorem p3_split (t f : Nat) (ht : t < 256) (hf : f < 256) : p3Of t ⟨.nb_sched
 theorem latch_sub_tgt (s : MfState) (fn i : Nat) (h : (latch s fn).testBit i = true) :
     s.tasksTgt.testBit i = true := by
   unfold latch at h
-  simp only at h
   split at h
   · exact h
   · rw [Nat.testBit_and] at h
@@ -310,16 +311,115 @@ theorem latch_eq (s : MfState) (fn : Nat) (hs : s.safeFn < GSM_MAX_FN) (hfn : fn
   rw [hM] at hs hfn
   have hsh : (GSM_MAX_FN >>> 1 : Nat) = 1357824 := by decide
   have hdv : (GSM_MAX_FN / 2 : Nat) = 1357824 := by decide
-  have hc : (((s.safeFn : Int) - (fn : Int) ≤ 0 ∨ (s.safeFn : Int) - (fn : Int) ≥ ((1357824 : Nat) : Int) ∨
-      s.safeFn ≥ GSM_MAX_FN)) ↔ ¬ (fn < s.safeFn ∧ s.safeFn < fn + 1357824) := by
-    rw [hM]; omega
-  simp only [latch, toInt32_sub s.safeFn fn (by omega) (by omega), hsh, hdv, hc]
+  have hc : nothingInTheWay s fn = !decide (fn < s.safeFn ∧ s.safeFn < fn + 1357824) := by
+    simp only [nothingInTheWay, toInt32_sub s.safeFn fn (by omega) (by omega), hsh]
+    rw [hM]
+    by_cases h : fn < s.safeFn ∧ s.safeFn < fn + 1357824
+    · have h1 : ¬ ((s.safeFn : Int) - (fn : Int) ≤ 0) := by omega
+      have h2 : ¬ ((s.safeFn : Int) - (fn : Int) ≥ ((1357824 : Nat) : Int)) := by omega
+      have h3 : ¬ (s.safeFn ≥ 2715648) := by omega
+      simp only [h1, h2, h3, decide_false, Bool.or_self, h, and_self, decide_true, Bool.not_true]
+    · have h1 : ((s.safeFn : Int) - (fn : Int) ≤ 0) ∨ ((s.safeFn : Int) - (fn : Int) ≥ ((1357824 : Nat) : Int)) := by
+        omega
+      rcases h1 with h1 | h1 <;>
+        simp only [h1, h, decide_true, decide_false, Bool.true_or, Bool.or_true, Bool.not_false]
+  simp only [latch, hc, hdv]
   by_cases h : fn < s.safeFn ∧ s.safeFn < fn + 1357824
-  · simp only [h, not_true_eq_false, if_false, and_self, if_true]
-  · simp only [h, not_false_eq_true, if_true, if_false]
+  · simp [h]
+  · simp [h]
 
 /-- an invalid `safe_fn` (after `mframe_reset`) never holds anything back -/
 theorem latch_invalid (s : MfState) (fn : Nat) (h : s.safeFn ≥ GSM_MAX_FN) : latch s fn = s.tasksTgt := by
-  simp only [latch, h, or_true, if_true]
+  have : nothingInTheWay s fn = true := by
+    simp only [nothingInTheWay, decide_eq_true h, Bool.or_true]
+  simp only [latch, this, if_true]
+
+theorem wrapState_ok (tasks tgt : Nat) (r : Except FwCrash (List Event × Nat)) (evs : List Event) (s' : MfState)
+    (h : wrapState tasks tgt r = .ok (evs, s')) :
+    s'.tasks = tasks ∧ s'.tasksTgt = tgt ∧ dropState r = .ok evs := by
+  cases r with
+  | error e => cases h
+  | ok p =>
+    obtain ⟨e, sf⟩ := p
+    simp only [wrapState, Except.ok.injEq, Prod.mk.injEq] at h
+    obtain ⟨h1, h2⟩ := h
+    subst h1 h2
+    exact ⟨rfl, rfl, rfl⟩
+
+/-- the result of `mframe_schedule()`, whenever it returns -/
+theorem mframeScheduleSt_ok (rv : RvOf) (s : MfState) (fn : Nat) (evs : List Event) (s' : MfState)
+    (h : mframeScheduleSt rv s fn = .ok (evs, s')) :
+    s'.tasks = latch s fn ∧ s'.tasksTgt = s.tasksTgt ∧ evs = expectedCalls (latch s fn) fn := by
+  rw [mframeScheduleSt_def] at h
+  obtain ⟨h1, h2, h3⟩ := wrapState_ok _ _ _ _ _ h
+  rw [scheduleTasksSt_events] at h3
+  exact ⟨h1, h2, scheduleTasks_ok _ _ _ _ h3⟩
+
+/-- if the stateless loop returns, so does `mframe_schedule()` -/
+theorem mframeScheduleSt_total (rv : RvOf) (s : MfState) (fn : Nat) (evs : List Event)
+    (h : scheduleTasks (latch s fn) fn (List.range 32) = .ok evs) :
+    ∃ s', mframeScheduleSt rv s fn = .ok (evs, s') := by
+  rw [mframeScheduleSt_def]
+  have := scheduleTasksSt_events rv (latch s fn) fn (List.range 32) s.safeFn
+  rw [h] at this
+  generalize scheduleTasksSt rv (latch s fn) fn (List.range 32) s.safeFn = r at this
+  cases r with
+  | error e => cases this
+  | ok p =>
+    obtain ⟨e, sf⟩ := p
+    simp only [dropState, Except.ok.injEq] at this
+    subst this
+    exact ⟨_, rfl⟩
+
+theorem mframeScheduleSt_in_range (rv : RvOf) (s : MfState) (fn : Nat)
+    (hlen : schedSetForTask.length = 32) : mframeScheduleSt rv s fn ≠ .error .taskOutOfRange := by
+  intro hc
+  have h1 := mframeScheduleSt_events rv s fn
+  rw [hc] at h1
+  simp only [callsOf] at h1
+  have := scheduleTasks_in_range (latch s fn) fn (List.range 32)
+    (fun i hi => by rw [hlen]; exact List.mem_range.1 hi)
+  exact this h1.symm
+
+/-- what an expected call is -/
+theorem mem_expectedCalls (tasks fn : Nat) (e : Event) :
+    e ∈ expectedCalls tasks fn ↔
+      ∃ i, i < 32 ∧ tasks.testBit i = true ∧ ∃ it ∈ itemsOf i, fires it fn = true ∧ e = eventOf i it := by
+  simp only [expectedCalls, List.mem_flatMap, List.mem_filter, List.mem_range, List.mem_map]
+  constructor
+  · rintro ⟨i, ⟨hi, hb⟩, it, ⟨hm, hf⟩, rfl⟩
+    exact ⟨i, hi, hb, it, hm, hf, rfl⟩
+  · rintro ⟨i, hi, hb, it, hm, hf, rfl⟩
+    exact ⟨i, ⟨hi, hb⟩, it, ⟨hm, hf⟩, rfl⟩
+
+/-! ## histories of the scheduler state machine -/
+
+inductive FwOp where
+  | enable (t : Nat) | disable (t : Nat) | set (mask : Nat) | reset | tick (fn : Nat)
+
+/-- one operation: new state and the calls made (only a tick makes calls) -/
+def fwStep (rv : RvOf) (s : MfState) : FwOp → Except FwCrash (MfState × List Event)
+  | .enable t => (mframeEnable s t).map fun s' => (s', [])
+  | .disable t => (mframeDisable s t).map fun s' => (s', [])
+  | .set m => .ok (mframeSet s m, [])
+  | .reset => .ok (mframeReset, [])
+  | .tick fn => (mframeScheduleSt rv s fn).map fun r => (r.2, r.1)
+
+/-- a history: the final state and all calls made, in order -/
+def fwRun (rv : RvOf) (s : MfState) : List FwOp → Except FwCrash (MfState × List Event)
+  | [] => .ok (s, [])
+  | op :: rest =>
+    match fwStep rv s op with
+    | .error e => .error e
+    | .ok (s1, e1) =>
+      match fwRun rv s1 rest with
+      | .error e => .error e
+      | .ok (s2, e2) => .ok (s2, e1 ++ e2)
+
+/-- the operation cannot put task bit `t` into the target bitmap -/
+def keepsOff (t : Nat) : FwOp → Bool
+  | .enable t' => t' != t
+  | .set m => !(u32 m).testBit t
+  | _ => true
 
 end OsmoVerif.Mframe
